@@ -44,7 +44,7 @@ CaseEv == [ev |-> "case", id |-> "m", noid |-> FALSE, subs |-> <<>>,
            mode |-> Mode, nodes |-> Scenario.nodes, edges |-> Scenario.edges,
            branches |-> [i \in 1..Len(brs) |-> [from |-> brs[i].from, ends |-> NameSeq(brs[i].ends), multi |-> brs[i].multi, data |-> Mode # "wf"]],
            max |-> deco.max, before |-> NameSeq(deco.before), after |-> NameSeq(deco.after), rerun |-> NameSeq(deco.rerun),
-           state |-> Stateful, fail |-> deco.fail, post |-> FALSE, hmod |-> FALSE]
+           state |-> Stateful, fail |-> deco.fail, post |-> FALSE, hmod |-> FALSE, echo |-> <<>>]
 MaxStepsImpl == IF deco.max = 0 THEN N + 10 ELSE deco.max      \* graph.go: len(chanSubscribeTo) + 10
 
 \* ------------------------------------------------------------------ static structure, as compile() derives it
@@ -193,7 +193,7 @@ BatchStep ==
           bodyEvs == LET RECURSIVE B(_)
                          B(k) == IF k > Len(order) THEN <<>>
                                  ELSE LET n == order[k]
-                                          base == [p |-> "", n |-> n, i |-> inp[n]] @@ (IF Stateful THEN [st |-> trail2] ELSE Empty)
+                                          base == [p |-> "", n |-> n, i |-> inp[n]] @@ (IF Stateful THEN [st |-> trail2, sx |-> R!FreshStateDigest] ELSE Empty)
                                           csev == IF Stateful THEN <<[ev |-> "cs", p |-> "", k |-> "body", n |-> n, seq |-> st.cnt + Len(order) + k - 1]>> ELSE <<>>
                                       IN csev \o (IF n \in aborting THEN <<[ev |-> "abort"] @@ base>>
                                           ELSE IF n \in failing THEN <<[ev |-> "exec"] @@ base>>
